@@ -16,6 +16,7 @@ def evOfJson (j : Json) : Except String Ev := do
   | "send" => pure (.send (← getNat j "m"))
   | "sendBegin" => pure (.sendBegin (← getNat j "m"))
   | "sendEnd" => pure (.sendEnd (← getNat j "m"))
+  | "break" => pure (.breakStream (← getNat j "n"))
   | e => throw s!"event {e}"
 
 def jsonOfEv : Ev → Json
@@ -29,6 +30,7 @@ def jsonOfEv : Ev → Json
   | .send m => Json.mkObj [("e", "send"), ("m", Json.num (JsonNumber.fromNat m))]
   | .sendBegin m => Json.mkObj [("e", "sendBegin"), ("m", Json.num (JsonNumber.fromNat m))]
   | .sendEnd m => Json.mkObj [("e", "sendEnd"), ("m", Json.num (JsonNumber.fromNat m))]
+  | .breakStream n => Json.mkObj [("e", "break"), ("n", Json.num (JsonNumber.fromNat n))]
 
 /-- Outcome of one event: what a peer can observe. -/
 def outcome (closed : List Nat) (s s' : St) : Ev → Json
